@@ -472,7 +472,11 @@ impl AdvancedStringVec {
                 if let Some(overlap_info) = self.find_best_overlap(candidate_bytes, s_bytes) {
                     let candidate_entry = self.entries[candidate_idx];
                     let match_offset = candidate_entry.offset() + overlap_info.0;
-                    return Some((match_offset, overlap_info.1));
+                    // A suffix/prefix overlap only covers the first part of the new string:
+                    // reuse the position only if the arena really holds the whole string there
+                    if self.arena.get(match_offset..match_offset + s_bytes.len()) == Some(s_bytes) {
+                        return Some((match_offset, overlap_info.1));
+                    }
                 }
             }
         }
